@@ -160,7 +160,7 @@ TDB ==
         /\ db' = IF hasdb THEN M ELSE <<>>
   /\ epoch' = epoch + 1
   /\ last' = [a |-> "Build", k |-> last.k, ok |-> BuildOk(last.k, plan), ran |-> plan.ran, quiet |-> FALSE,
-              status |-> plan.status, reasons |-> plan.reasons, removed |-> plan.removed, skipped |-> plan.skipped,
+              status |-> plan.status, reasons |-> plan.reasons, removed |-> plan.removed, skipped |-> plan.skipped, dskipped |-> plan.dskipped,
               fs0 |-> fs, mem0 |-> mem]
   /\ plan' = NoPlan
   /\ UNCHANGED <<desc, fs, hasdb, nodes, paths, aborting>>
@@ -237,7 +237,7 @@ TEnd == Is("End") /\ ~HavePlan /\ UNCHANGED vars /\ UNCHANGED plan /\ Keep
 (* the Build line also records which key is being built (for Result) *)
 TBuild2 ==
   /\ Is("Build") /\ ~HavePlan
-  /\ plan' = DoBuild(KeyOf(ev.k))
+  /\ plan' = DoBuildSkip(KeyOf(ev.k), SeqToSet(ev.skip))
   /\ aborting' = (ev.cof /\ plan'.failures > 0)
   /\ last' = [a |-> "Building", k |-> KeyOf(ev.k)]
   /\ UNCHANGED <<desc, fs, mem, db, epoch, hasdb, nodes, paths, sigmap>>
@@ -259,5 +259,6 @@ Post == PrintT(<<"MAXL", TLCGet(1), Len(Log)>>) /\ TLCGet(1) > Len(Log)
 (* properties evaluated on every validated build *)
 TOutputsClean == (last.a = "Build") => OutputsClean
 TFailureStops == (last.a = "Build") => FailureStops
+TRefusalHidesNoFailure == (last.a = "Build") => RefusalHidesNoFailure
 TStaleOnlyObsolete == (last.a = "Build") => StaleOnlyObsolete
 =============================================================================
